@@ -27,20 +27,22 @@
     §5 messages through Parse                    parse_header_only (6 header-only types); switchConfig_roundtrip (2 types);
                                                  flowMod_roundtrip (Match + instructions + actions nested); flowRemoved_roundtrip;
                                                  helloElem_roundtrip, hello_roundtrip (any number of elements), hello_default_roundtrip;
-                                                 errorMsg_roundtrip; portStatus_roundtrip (+ phyPort_roundtrip); bundleProp_roundtrip (element)
+                                                 errorMsg_roundtrip; portStatus_roundtrip (+ phyPort_roundtrip); bundleProp_roundtrip (element);
+                                                 switchFeatures_roundtrip_noports / _partial (ports discarded)
 
   Where the round trip is FALSE in the model (= the Go code violates C05), the concrete counterexample is proved:
     actionMplsTtl_counterexample / actionNwTtl_counterexample / instrMeter_counterexample
                                              TTL / MeterId neither written nor read (stub types without encoders of their own);
                                              InstrMeter followed by anything decodes to the all-zero instruction  (known D42)
-    switchFeatures_dpid_counterexample       SwitchFeatures.MarshalBinary never writes the DPID (Len counts it, the decoder reads
-                                             it at offset 8): every field after the header comes back shifted      (NEW)
+    switchFeatures_roundtrip_partial         (after the DPID fix) SwitchFeatures.UnmarshalBinary walks over the ports and discards
+                                             them: a features reply with ports comes back with Ports = [] (known: D-list "ports")
     hello_unpadded_element_counterexample    a hello element whose Length is not a multiple of 8 followed by another element:
                                              the encoder does not pad, the decoder advances by the rounded Length — the
                                              following element is lost without an error (condition `PadOK` of hello_roundtrip)
   Fixed since the first version of this file, the counterexamples replaced by positive theorems: experimenter-class OXM
   (D14: matchField_roundtrip now covers it), NXActionResubmit.TableID (nxResubmit_roundtrip), hello bitmap decoder reading
-  to the end of the buffer (D20: helloElem_roundtrip, hello_roundtrip, hello_two_elements_roundtrip).
+  to the end of the buffer (D20: helloElem_roundtrip, hello_roundtrip, hello_two_elements_roundtrip), SwitchFeatures DPID never
+  written (switchFeatures_roundtrip_noports, switchFeatures_example).
   Representation change (not a defect): ipv4_short_form — a 4-byte net.IP comes back in the 16-byte form of the same address.
 -/
 import OFV.Model.All
@@ -58,6 +60,7 @@ import OFV.Lemmas.RTHello
 import OFV.Lemmas.RTRegistry
 import OFV.Lemmas.RTFlowRemoved
 import OFV.Lemmas.RTMsgMore
+import OFV.Lemmas.RTSwitchFeatures
 namespace OFV.Props.C05
 open OFV OFV.Go OFV.Model OFV.RT
 
@@ -596,18 +599,46 @@ theorem bundleProp_roundtrip (t ei et : Nat) (d : Bytes) (ht : t < 65536) (hei :
   obtain ⟨h1, h2, h3, h4⟩ := bundleProp_rt t ei et d ht hei het hd
   exact ⟨⟨h1 _, h1 _, fun data tail hdw hb => h4 recv data tail hdw hb⟩, h1, h2, h3⟩
 
-/-- COUNTEREXAMPLE (new).  `SwitchFeatures.MarshalBinary` never writes the datapath id: `Len()` counts the 8 DPID bytes, the
-    encoder goes from the header straight to Buffers (the 8 bytes are left over as zeros at the END), while
-    `UnmarshalBinary` reads the DPID at offset 8.  A features reply with DPID 01..08, 256 buffers, 254 tables, capabilities
-    0x4f comes back (through Parse) with DPID 00 00 01 00 fe 00 00 00, Buffers 79, NumTables 0, Capabilities 0. -/
-theorem switchFeatures_dpid_counterexample :
-    let hdr := V.obj "Header" [.num 4, .num 6, .num 32, .num 7]
-    let v := V.obj "SwitchFeatures" [hdr, .bytes [1, 2, 3, 4, 5, 6, 7, 8], .num 256, .num 254, .num 0, .bytes (zeros 2),
-      .num 79, .num 0, .list []]
-    let bs : Bytes := [4, 6, 0, 32, 0, 0, 0, 7,  0, 0, 1, 0, 254, 0, 0, 0, 0, 0, 0, 79, 0, 0, 0, 0,  0, 0, 0, 0, 0, 0, 0, 0]
-    SwitchFeatures.marshalM v = .ok (bs, v) ∧
-    parse 1 (Slice.exact bs) = .ok (.obj "SwitchFeatures" [hdr, .bytes [0, 0, 1, 0, 254, 0, 0, 0], .num 79, .num 0, .num 0,
-      .bytes (zeros 2), .num 0, .num 0, .list []]) :=
+/-- SwitchFeatures (features reply, type 6) through Parse, decoded into NewFeaturesReply(), the buffer holding exactly the
+    message (the port loop runs to the end of the buffer).  8-byte DPID (now written by the encoder — fixed), 2 pad bytes,
+    all scalars inside their widths; `ports` any list of port descriptions that round-trip on their own (`PortsRT`, e.g.
+    `portRT_phyPort`), 32 + 64·#ports < 2^16.  `MarshalBinary` stores the size in Header.Length and writes the ports;
+    `UnmarshalBinary` walks over every port and DISCARDS it (the decoded port is never appended): the result is the value
+    with Ports = [] (the receiver's list).  So the value round-trips (and its bytes are reproduced) exactly when it has no
+    ports — the 32-byte form, `switchFeatures_roundtrip_noports`; with ports every other field still comes back, the ports
+    are lost.  PARTIAL: full statement (false) = the same with the ports preserved. -/
+theorem switchFeatures_roundtrip_partial (ver xid : Nat) (dpid : Bytes) (b nt ax : Nat) (pad : Bytes) (caps acts : Nat)
+    (ports : List V) (es : List Bytes)
+    (hver : ver < 256) (hxid : xid < 4294967296) (hdp : dpid.length = 8) (hb32 : b < 4294967296) (hnt : nt < 256)
+    (hax : ax < 256) (hpad : pad.length = 2) (hcaps : caps < 4294967296) (hacts : acts < 4294967296)
+    (hps : PortsRT ports es) (hL : 32 + 64 * es.length < 65536) :
+    let L := 32 + 64 * es.length
+    let bs := [n8 ver, n8 Gen.openflow13.Type_FeaturesReply] ++ be16 (n16 L) ++ be32 (n32 xid) ++ dpid ++ be32 (n32 b)
+      ++ [n8 nt, n8 ax] ++ pad ++ be32 (n32 caps) ++ be32 (n32 acts) ++ es.flatten
+    (∀ ln0, SwitchFeatures.marshalM (switchFeaturesV ver ln0 xid dpid b nt ax pad caps acts ports)
+      = .ok (bs, switchFeaturesV ver L xid dpid b nt ax pad caps acts ports)) ∧
+    ∀ (depth : Nat) (data : Slice), data.WF → data.bytes = bs →
+      parse depth data = .ok (switchFeaturesV ver L xid dpid b nt ax pad caps acts []) :=
+  switchFeatures_rt ver xid dpid b nt ax pad caps acts ports es hver hxid hdp hb32 hnt hax hpad hcaps hacts hps hL
+
+/-- the 32-byte form (no ports): full round trip, Length set to 32 -/
+theorem switchFeatures_roundtrip_noports (ver xid : Nat) (dpid : Bytes) (b nt ax : Nat) (pad : Bytes) (caps acts : Nat)
+    (hver : ver < 256) (hxid : xid < 4294967296) (hdp : dpid.length = 8) (hb32 : b < 4294967296) (hnt : nt < 256)
+    (hax : ax < 256) (hpad : pad.length = 2) (hcaps : caps < 4294967296) (hacts : acts < 4294967296) :
+    let v := switchFeaturesV ver 32 xid dpid b nt ax pad caps acts []
+    ∃ bs, bs.length = 32 ∧ (∀ ln0, SwitchFeatures.marshalM (switchFeaturesV ver ln0 xid dpid b nt ax pad caps acts []) = .ok (bs, v)) ∧
+      ∀ (depth : Nat) (data : Slice), data.WF → data.bytes = bs → parse depth data = .ok v := by
+  obtain ⟨h1, h2⟩ := switchFeatures_rt ver xid dpid b nt ax pad caps acts [] [] hver hxid hdp hb32 hnt hax hpad hcaps hacts
+    .nil (by decide)
+  refine ⟨_, ?_, h1, h2⟩
+  simp only [List.length_append, be16_length, be32_length, List.length_cons, List.length_nil, hdp, hpad, List.flatten_nil]
+
+/-- the former counterexample value (DPID 01..08, 256 buffers, 254 tables, capabilities 0x4f) now comes back -/
+theorem switchFeatures_example :
+    let v := V.obj "SwitchFeatures" [.obj "Header" [.num 4, .num 6, .num 32, .num 7], .bytes [1, 2, 3, 4, 5, 6, 7, 8], .num 256,
+      .num 254, .num 0, .bytes (zeros 2), .num 79, .num 0, .list []]
+    let bs : Bytes := [4, 6, 0, 32, 0, 0, 0, 7,  1, 2, 3, 4, 5, 6, 7, 8,  0, 0, 1, 0, 254, 0, 0, 0, 0, 0, 0, 79, 0, 0, 0, 0]
+    SwitchFeatures.marshalM v = .ok (bs, v) ∧ parse 1 (Slice.exact bs) = .ok v :=
   ⟨rfl, rfl⟩
 
 /-- One hello element, followed by anything (the next element, …): `HelloElemVersionBitmap.UnmarshalBinary` reads the bitmaps
